@@ -501,6 +501,21 @@ class StmtMixin:
             raise Unsupported(f"loop #{key[1]} of {key[0]} (line {node.lineno}) has no invariant")
         return ls
 
+    def check_steps(self, st: State, ls, prev: State, label_kind="step", is_ret=False):
+        clauses = list(ls.step) + (list(ls.step_ret) if is_ret else [])
+        if not clauses:
+            return st
+        names = dict(self.entry_names)
+        names.update(st.locals)
+        names.update(st.ghost)
+        pn = dict(self.entry_names)
+        pn.update(prev.locals)
+        pn.update(prev.ghost)
+        for cl in clauses:
+            env = SpecEnv(st, names, self.entry_state, self.entry_names, prev, pn)
+            st = self.oblige(st, self.spec_bool(env, cl.expr), "step", cl.label)
+        return st
+
     def inv_env(self, st: State, ls, extra=None) -> SpecEnv:
         names = dict(self.entry_names)
         names.update(st.locals)
@@ -554,7 +569,10 @@ class StmtMixin:
             if t.s != "true":
                 outs += self.ex_block(s2.assume(Not(t)).note(f"L{s.lineno}:exit"), s.orelse)
             if t.s != "false":
-                for o in self.ex_block(s2.assume(t).note(f"L{s.lineno}:iter"), s.body):
+                it0 = s2.assume(t).note(f"L{s.lineno}:iter")
+                for o in self.ex_block(it0, s.body):
+                    if o.kind in ("ok", "cnt", "brk", "ret"):
+                        o = Out(o.kind, self.check_steps(o.st, ls, it0, is_ret=(o.kind == "ret")), o.val)
                     if o.kind in ("ok", "cnt"):
                         s3 = self.check_invs(o.st, ls, "inv_pres")
                         if v0 is not None:
